@@ -9,7 +9,7 @@
 // "ref" side   : in-process server without caches over the store s ∪ c (one store per contextual set), the
 //                request carries nothing.
 // Both sides are the real server code (default engine; again with the weighted-graph engine enabled).
-// Output per step: <split answer>/<reference answer>, "~" appended when re-asking the same question on the
+// Output per step: <split answer, caches on>/<split answer, no caches>/<reference answer>, "~" appended when re-asking the same question on the
 // same side gave another answer (non-determinism of the engine itself: C02, not C04).
 package main
 
@@ -459,27 +459,25 @@ func exec(line string, st *hx.Stats) string {
 		var parts []string
 		for pass := 0; pass < 2; pass++ {
 			for _, s := range steps {
-				t0 := time.Now()
-				a := ask(rg.cached, splitStore, splitModel, s, ctxOf[s.sel])
-				t1 := time.Now()
-				b := ask(rg.plain, refStore[s.sel][0], refStore[s.sel][1], s, nil)
-				st.Add("ms:"+eng+":"+s.kind+":cached", int(t1.Sub(t0).Milliseconds()))
-				st.Add("ms:"+eng+":"+s.kind+":plain", int(time.Since(t1).Milliseconds()))
-				mark := ""
-				if a == "DL" || b == "DL" {
-					a, b = "DL", "DL"
+				a := ask(rg.cached, splitStore, splitModel, s, ctxOf[s.sel])      // contextual tuples, all caches on
+				p := ask(rg.plain, splitStore, splitModel, s, ctxOf[s.sel])       // contextual tuples, no caches
+				b := ask(rg.plain, refStore[s.sel][0], refStore[s.sel][1], s, nil) // the same tuples stored
+				if a == "DL" || b == "DL" || p == "DL" {
+					a, b, p = "DL", "DL", "DL"
 					st.Inc("listusers-deadline")
 				}
-				if a != b {
+				mark := ""
+				if a != b || p != b {
 					st.Inc("mismatch:" + s.kind)
-					// is either side unstable by itself?
+					// is any side unstable by itself?
 					for rep := 0; rep < 3 && mark == ""; rep++ {
-						if ask(rg.cached, splitStore, splitModel, s, ctxOf[s.sel]) != a || ask(rg.plain, refStore[s.sel][0], refStore[s.sel][1], s, nil) != b {
+						if ask(rg.cached, splitStore, splitModel, s, ctxOf[s.sel]) != a || ask(rg.plain, splitStore, splitModel, s, ctxOf[s.sel]) != p ||
+							ask(rg.plain, refStore[s.sel][0], refStore[s.sel][1], s, nil) != b {
 							mark = "~"
 						}
 					}
 				}
-				parts = append(parts, a+"/"+b+mark)
+				parts = append(parts, a+"/"+p+"/"+b+mark)
 			}
 		}
 		out = append(out, eng+" "+strings.Join(parts, " "))
